@@ -8,6 +8,6 @@ git -C $W checkout -q --detach $(git -C /repo rev-parse HEAD) 2>/dev/null
 git -C $W checkout -q -- . && git -C $W apply "$P" || { echo "patch does not apply"; exit 3; }
 rc=0
 for id in "$@"; do
-  VERIF_REPO=$W python3 /verif/sa/check.py $id | grep -E "^(violation|VIOLATION|ANALYSIS|C[0-9]+ \[)" | cut -c1-400
+  VERIF_REPO=$W python3 /verif/sa/check.py $id | grep -E "^(violation|VIOLATION|UNDECIDED|ANALYSIS|C[0-9]+ \[)" | cut -c1-400
 done
 git -C $W checkout -q -- .
